@@ -770,7 +770,7 @@ def run(tier, seed, replay=None):
                            got=outs[k][:2000], want=want[:2000]))
     for name, h, k in dom_viol[:3]:
         if not spec_fail_unknown:
-            run.violation("oracle fails inside C18_dom (theorem C18_history_partial covers this history)",
+            run.violation("oracle fails inside C18_dom (theorem C18_pure covers this history)",
                           dict(history_json(name, h), failing_op=k))
     if not spec_fail_unknown and not dom_viol:
         if corr_fail or group_conflicts:
@@ -811,7 +811,7 @@ def run(tier, seed, replay=None):
         "SHACL texts are compared as prefix lines + graph up to blank-node renaming (rdflib orders blank nodes by "
         "random id; two serialisations of one graph differ textually)",
         "rdflib Graph.serialize / json.dump write to a file what they return as a string (external; monitored here)",
-        "hypothesis shacl_ignores_examples of C18_history_partial: monitored by every SHACL-after-ShExC call of the "
+        "hypothesis shacl_ignores_examples of C18_pure: monitored by every SHACL-after-ShExC call of the "
         "'examples' configuration",
         "the denotation shim (reference text + PREFIX block + repeated example comments) is trusted harness code",
     ]
